@@ -1264,6 +1264,11 @@ func (x *Exec) interfere(p *Path, vars map[string]Val, label, pkg string) {
 		x.e.heapHavoc(p, key)
 	}
 	x.assumeLockInv(p, own)
+	if x.fc != nil && x.fc.Atomic != "" && !p.atomicTaken && len(p.frames) == 1 && x.fc.Atomic == label {
+		// the function's own critical section has not started yet: what other threads did so far is part of the
+		// state it starts from
+		p.oldSnap = p.snap()
+	}
 }
 
 func (x *Exec) lockKeysForCall(p *Path, fr *FrameState, cc *ssa.CallCommon) []string {
